@@ -49,6 +49,21 @@ CLAIMED["C04"] = dict(
     text="Sequences of up to 6 (quick) / 10 (thorough) transformations drawn from all thirteen structural operations (with relc, bare_bin_labels, both rule presets) are applied to punctuation-rich, partly discontinuous trees; an operation whose documented prerequisite fails on the actual tree is skipped and counted. After every applied step the returned node must be the parentless root of a well-formed tree (no node twice, consistent parent pointers, no childless constituent, tokens 1..n), words unchanged, POS unchanged up to the '+' concatenation of collapsing, sid kept, and the multiset of labels must be exactly what the documentation says for that operation, computed on the set model of the tree before the step.",
     note="Trusted: raw snapshot walk in vlib/model.py; prerequisite predicates in checks/C04.py (see ASSUMPTIONS in the evidence). Samples sequences, does not enumerate them.",
     ref="DESIGN.md section 2, C04")
+CLAIMED["C06"] = dict(
+    tech="Hypothesis treebank pools vs. an independent reference extractor on token sets; per-node instantiation of the extracted linearization with the children's blocks",
+    text="Treebanks of 1..6 trees drawn with replacement from a small pool (so counts exceed 1, rules recur under different parents, siblings repeat labels) are extracted with grammar.extract; grammar and lexicon must equal the reference multiset computed from token sets, every node's rule instantiated with its children's blocks must reproduce the node's blocks using each child block once and in order, fan_out must equal block counts, per-label sums must equal node counts, and is_contextfree must hold exactly for continuous treebanks.",
+    note="Trusted: reference extractor and instantiate() in vlib/lcfrs.py. Bounded to 8 (quick) / 12 (thorough) tokens per tree, 6 trees.",
+    ref="DESIGN.md section 2, C06")
+CLAIMED["C07"] = dict(
+    tech="exhaustive enumeration of all canonical LCFRS rules of rank<=4, <=7 variables (23 425) x both reorderings with un-binarization by inlining; depth-first chain search for Markovized grammars over v,h in 0..3 x nofanout; Hypothesis treebank grammars",
+    text="Every canonical ordered non-deleting non-erasing rule up to the bound is binarized (in grammars of 24 rules sharing labels) left-to-right and fan-out-optimised: at most two right-hand-side elements, every @-symbol defined exactly once with one fan-out, inlining all @-symbols gives back exactly the input rules (up to the canonical re-ordering for 'optimal'), rules of rank <= 2 kept. For Markovized binarization (v,h in 0..3, with/without nofanout) a depth-first search must find a chain of result rules that composes to the original linearization with matching fan-outs at every link. The same oracles run on grammars extracted from random treebanks. Exhaustive inside the stated bound.",
+    note="Trusted: LCFRS composition/canonical form in vlib/lcfrs.py. Names of Markov symbols are not constrained (the statement does not define them).",
+    ref="DESIGN.md section 2, C07")
+CLAIMED["C08"] = dict(
+    tech="Hypothesis treebank pools x all grammar modes; conservation laws computed from the set model (per-label sums, per-symbol flow conservation incl. @-symbols, chain counts)",
+    text="For random treebanks in which one rule recurs in several trees and under different parents, every grammar type (treebank, leftright, optimal; deterministic and Markovized with v,h in 0..3, with/without nofanout) must satisfy: summed counts of the rules rewriting an original label = number of nodes with that label; for every symbol including binarization symbols, rewriting counts + tag count = count-weighted right-hand-side occurrences + root count; deterministic chains carry the total of their original rule; the lexicon is untouched.",
+    note="Trusted: node/tag/root counts from the set model; extraction cross-checked against the reference extractor. The count fields of written grammar files are compared with the in-memory sums by the C09 check (same decoders).",
+    ref="DESIGN.md section 2, C08")
 PENDING_REASON = "check not built yet in this round (planned, see DESIGN.md section 6); not claimed until it is quiet on the unchanged tree"
 
 
